@@ -78,6 +78,13 @@ def setitem(I, obj, idx, value):
         return
     if isinstance(obj, SArray):
         return arr_setitem(I, obj, idx, value)
+    if isinstance(obj, SSeq):
+        if isinstance(idx, slice) and idx.start is None and idx.stop is None and idx.step is None \
+                and isinstance(value, SSeq):
+            obj.term = value.term
+            I.mutations.append(obj)
+            return
+        raise Unsupported("SSeq item store")
     raise Unsupported(f"item store on {obj!r}")
 
 
@@ -333,6 +340,8 @@ def iterate(I, v):
     sx = _sx()
     if isinstance(v, sx.Poison):
         raise Unsupported("use of poisoned value")
+    if isinstance(v, SSeq):
+        return ("__sseq__", v)
     if isinstance(v, (list, tuple)):
         if len(v) == 3 and isinstance(v, tuple) and v[0] == "__dictview__":
             return dict_keys_iter(I, v[1], v[2])
@@ -482,6 +491,8 @@ def method_of(I, obj, name):
         impl = I.lib.get("str." + name)
         if impl is not None:
             return BM(obj, B("str." + name, impl))
+    if isinstance(obj, SSeq):
+        return sseq_method(I, obj, name)
     if isinstance(obj, Opaque):
         impl = I.lib.get(f"opaque:{obj.name}.{name}")
         if impl is not None:
@@ -546,7 +557,12 @@ def install_builtins(I):
     bi["range"] = B("range", b_range)
     bi["enumerate"] = B("enumerate", lambda I, x, start=0: [(i + start, v) for i, v in enumerate(iterate(I, x))])
     bi["zip"] = B("zip", lambda I, *xs: [tuple(t) for t in zip(*[iterate(I, x) for x in xs])])
-    bi["list"] = B("list", lambda I, x=(): _plain(iterate(I, x)))
+    def b_list(I, x=()):
+        it = iterate(I, x)
+        if isinstance(it, tuple) and len(it) == 2 and it[0] == "__sseq__":
+            return SSeq(it[1].term)
+        return _plain(it)
+    bi["list"] = B("list", b_list)
     bi["tuple"] = B("tuple", lambda I, x=(): tuple(_plain(iterate(I, x))))
     def b_set(I, x=()):
         items = [I.resolve(v) for v in _plain(iterate(I, x))]
@@ -1130,3 +1146,127 @@ def install(I):
     install_misc(I)
     from . import lmfit_model
     lmfit_model.install(I)
+    install_sseq(I)
+    install_sysmods(I)
+
+
+# ================================================================== symbolic-length lists (z3 sequences)
+class SSeq(Sym):
+    """python list of atoms with symbolic length, backed by a z3 Seq(Int) term.
+    Only the operations sys.path handling needs."""
+
+    def __init__(self, term):
+        self.term = term
+
+    def __repr__(self):
+        return f"SSeq({self.term})"
+
+
+def _atom_code(I, v):
+    v = I.resolve(v)
+    if isinstance(v, str):
+        return z3.IntVal(V.str_code(v))
+    if isinstance(v, SAtom):
+        return v.term
+    raise Unsupported(f"sequence element {v!r}")
+
+
+def install_sseq(I):
+    L = I.lib
+    sx = _sx()
+
+    def seq_insert(I, self, idx, v):
+        n = z3.Length(self.term)
+        u = z3.Unit(_atom_code(I, v))
+        if idx == -1:
+            # list.insert(-1, x): before the last element; at position 0 for an empty list
+            new = z3.If(n == 0, u, z3.Concat(z3.SubSeq(self.term, 0, n - 1), u, z3.SubSeq(self.term, n - 1, 1)))
+        elif idx == 0:
+            new = z3.Concat(u, self.term)
+        else:
+            raise Unsupported("SSeq.insert at this index")
+        self.term = new
+        I.mutations.append(self)
+    L["sseq.insert"] = seq_insert
+
+    def seq_append(I, self, v):
+        self.term = z3.Concat(self.term, z3.Unit(_atom_code(I, v)))
+        I.mutations.append(self)
+    L["sseq.append"] = seq_append
+
+    def seq_remove(I, self, v):
+        u = z3.Unit(_atom_code(I, v))
+        if not I.fork(z3.Contains(self.term, u)):
+            I.raise_py("ValueError", "list.remove(x): x not in list")
+        i = z3.IndexOf(self.term, u, 0)
+        n = z3.Length(self.term)
+        self.term = z3.Concat(z3.SubSeq(self.term, 0, i), z3.SubSeq(self.term, i + 1, n - i - 1))
+        I.mutations.append(self)
+    L["sseq.remove"] = seq_remove
+
+    def seq_pop(I, self, idx=-1):
+        n = z3.Length(self.term)
+        if not I.fork(n > 0):
+            I.raise_py("IndexError", "pop from empty list")
+        if idx == -1:
+            val = SAtom(self.term[n - 1])
+            self.term = z3.SubSeq(self.term, 0, n - 1)
+        elif idx == 0:
+            val = SAtom(self.term[0])
+            self.term = z3.SubSeq(self.term, 1, n - 1)
+        else:
+            raise Unsupported("SSeq.pop at this index")
+        I.mutations.append(self)
+        return val
+    L["sseq.pop"] = seq_pop
+    L["sseq.copy"] = lambda I, self: SSeq(self.term)
+    L["sseq.index"] = lambda I, self, v: (_ for _ in ()).throw(Unsupported("SSeq.index"))
+
+
+def sseq_method(I, obj, name):
+    sx = _sx()
+    impl = I.lib.get("sseq." + name)
+    if impl is not None:
+        return sx.BoundMethod(obj, sx.Builtin("sseq." + name, impl))
+    return None
+
+
+# ================================================================== sys / pathlib / importlib
+def install_sysmods(I):
+    L = I.lib
+    sx = _sx()
+    I.sys_state = {"path": None, "dont_write_bytecode": False}
+    CONSTANTS["sys.path"] = lambda I: I.sys_state["path"]
+    CONSTANTS["sys.dont_write_bytecode"] = lambda I: I.sys_state["dont_write_bytecode"]
+
+    def set_dwb(I, v):
+        I.sys_state["dont_write_bytecode"] = v
+        I.ghost.setdefault("sys_writes", []).append(("dont_write_bytecode", v))
+    L["setattr:sys.dont_write_bytecode"] = set_dwb
+
+    def set_path(I, v):
+        I.sys_state["path"] = v
+    L["setattr:sys.path"] = set_path
+
+    PATH = sx.ClassVal("Path", [sx.OBJECT], {})
+
+    def mk_path(I, p):
+        if isinstance(p, sx.Obj) and p.cls is PATH:
+            return p
+        o = sx.Obj(PATH)
+        o.attrs["raw"] = p
+        o.attrs["parent"] = sx.Obj(PATH, {"raw": ("parent", p), "str": I.path_parent_atom(p)})
+        o.attrs["stem"] = I.path_stem_atom(p)
+        o.attrs["str"] = p
+        return o
+    L["pathlib.Path"] = mk_path
+    I.path_parent_atom = lambda p: SAtom(z3.Int("dir_of_path"), "parent")
+    I.path_stem_atom = lambda p: SAtom(z3.Int("stem_of_path"), "stem")
+
+    old_str = I.builtins["str"].fn
+
+    def b_str(I, x=""):
+        if isinstance(x, sx.Obj) and x.cls is PATH:
+            return x.attrs["str"]
+        return old_str(I, x)
+    I.builtins["str"] = sx.Builtin("str", b_str)
